@@ -55,3 +55,7 @@ claim("C17", "DESIGN.md 3/C17",
       "for every (test, relation) of the statement every series of length 0..4 (thorough 5) x parameter sets is re-executed under every value offset, negation, time shift (incl. half-second and pre-1970), joint data+span shift, reversal and every single-point perturbation (each position x each other symbol); flags must be identical / mirrored / unchanged outside the neighbourhood",
       "metamorphic (no reference model); dyadic values so transformations are exact; std cases within 1e-6 of a threshold skipped",
       TECH_TREE + " + metamorphic relation check between pairs of explored states")
+claim("C05", "DESIGN.md 3/C05",
+      "configs-as-programs x tables x 9 front-end variants: tables of 1..4 rows (thorough 0..6) with/without z and lat/lon, one-context programs with every window over a grid that puts rows exactly on starting and on ending (closed, half-open, empty, inverted), two-context programs over every ordered pair of coarse windows, 1-2 streams, probe / neighbour- / time- / depth- / position-dependent tests; every configured (context, stream, test) must yield exactly one result with the reference row mask and the flags of the direct call on those rows (the probe also checks the arguments it received)",
+      "reference = the real test function called directly (refinement statement); XarrayStream with time as a non-coordinate variable ignores windows (known finding, 4 signatures); region subsetting not judged",
+      TECH_TREE)
